@@ -4,6 +4,8 @@ import (
 	"bytes"
 	"context"
 	"fmt"
+	"os"
+	"runtime/pprof"
 	"sort"
 	"strings"
 	"time"
@@ -38,7 +40,7 @@ type kase struct {
 	h     *harness.H
 	layer string
 	c     int
-	spec caseSpec
+	spec  caseSpec
 
 	cluster *mock.Cluster
 	ref     *cesium.DB
@@ -80,6 +82,12 @@ func (k *kase) guard(what string, f func()) bool {
 		k.aborted = true
 		k.h.Inconclusive("call-did-not-return:" + what)
 		fmt.Printf("NOTE: C07 case %d: %s did not return within %s (%s); case abandoned\n", k.c, what, callWatchdog, k.doing)
+		if d := os.Getenv("VERIF_C07_DUMP"); d != "" {
+			if f, err := os.Create(fmt.Sprintf("%s/c%d.goroutines", d, k.c)); err == nil {
+				_ = pprof.Lookup("goroutine").WriteTo(f, 2)
+				_ = f.Close()
+			}
+		}
 		return false
 	}
 }
@@ -114,12 +122,32 @@ func (k *kase) key(ref chanRef) channel.Key {
 	return channel.Key(g.Data[ref.Data].Key)
 }
 
-func (k *kase) run(ctx context.Context) {
-	k.cluster = mock.ProvisionCluster(ctx, k.spec.Nodes, distribution.LayerConfig{TestingIntOverflowCheck: noLimit})
-	k.ref = must(cesium.Open(ctx, "", cesium.WithFS(xfs.NewMem())))
+func (k *kase) run(parent context.Context) {
+	ctx, cancel := context.WithCancel(parent)
+	defer cancel()
+	k.cluster = mock.ProvisionCluster(parent, k.spec.Nodes, distribution.LayerConfig{TestingIntOverflowCheck: noLimit})
+	k.ref = must(cesium.Open(parent, "", cesium.WithFS(xfs.NewMem())))
 	defer func() {
 		if k.aborted {
-			return // goroutines of a hung call may still hold the cluster
+			// A call of this case never returned. Its cluster would keep gossiping (and its
+			// mock network recording every message) for the rest of the run: cancel the
+			// context every writer and iterator of the case was opened under, then close the
+			// cluster from a goroutine that may itself be left behind.
+			cancel()
+			done := make(chan struct{})
+			go func() {
+				defer close(done)
+				defer func() { _ = recover() }()
+				_ = k.ref.Close()
+				_ = k.cluster.Close()
+			}()
+			select {
+			case <-done:
+				k.h.Count("abandoned_cases_torn_down", 1)
+			case <-time.After(callWatchdog):
+				k.h.Count("abandoned_cases_left_running", 1)
+			}
+			return
 		}
 		if err := k.ref.Close(); err != nil {
 			k.h.Count("reference_close_errors", 1)
